@@ -20,6 +20,40 @@ package tmi
 //@       result0 == addr(s.Committing) && result1 == ViewIDCommitting && result2 == ViewFound
 //@   ensures before-committing-round: h != s.Voting.Height && h == s.Committing.Height && r < s.Committing.Round ==>
 //@       result0 == nil && result1 == 0 && result2 == ViewBeforeCommitting
+//@   ensures wrong-commit: h != s.Voting.Height && h == s.Committing.Height && r > s.Committing.Round ==>
+//@       result0 == nil && result1 == 0 && result2 == ViewWrongCommit
 //@   ensures before-committing-height: h < s.Committing.Height ==> result0 == nil && result1 == 0 && result2 == ViewBeforeCommitting
+//@   ensures older-height: h < s.Voting.Height && h != s.Committing.Height ==> result0 == nil && result1 == 0 && result2 == ViewBeforeCommitting
 //@   ensures future-height: h > s.Voting.Height ==> result0 == nil && result1 == 0 && result2 == ViewFuture
 //@   ensures found-iff-view: (result2 == ViewFound) == (result0 != nil)
+
+// ---- view version bookkeeping (C11) and position updates (C04) ----
+
+//@ func kState.MarkVotingViewUpdated
+//@   property C11 C04
+//@   requires s.Voting.Version < MAXU32
+//@   ensures version-bump: s.Voting.Version == old(s.Voting.Version) + 1
+//@   ensures gossip-copy: s.GossipViewManager.Voting.VRV.Version == s.Voting.Version &&
+//@       s.GossipViewManager.Voting.VRV.Height == s.Voting.Height && s.GossipViewManager.Voting.VRV.Round == s.Voting.Round
+//@   ensures position-kept: s.Voting.Height == old(s.Voting.Height) && s.Voting.Round == old(s.Voting.Round)
+//@   ensures sm-synced: old(s.StateMachineViewManager.roundEntrance.H) == s.Voting.Height && old(s.StateMachineViewManager.roundEntrance.R) == s.Voting.Round ==>
+//@       s.StateMachineViewManager.outgoingView.Version == s.Voting.Version &&
+//@       s.StateMachineViewManager.outgoingView.Height == s.Voting.Height && s.StateMachineViewManager.outgoingView.Round == s.Voting.Round
+//@   modifies s.Voting.Version, s.GossipViewManager.Voting.VRV, s.StateMachineViewManager.outgoingView
+
+//@ func kState.MarkCommittingViewUpdated
+//@   property C11 C04
+//@   requires s.Committing.Version < MAXU32
+//@   ensures version-bump: s.Committing.Version == old(s.Committing.Version) + 1
+//@   ensures gossip-copy: s.GossipViewManager.Committing.VRV.Version == s.Committing.Version &&
+//@       s.GossipViewManager.Committing.VRV.Height == s.Committing.Height && s.GossipViewManager.Committing.VRV.Round == s.Committing.Round
+//@   ensures position-kept: s.Committing.Height == old(s.Committing.Height) && s.Committing.Round == old(s.Committing.Round)
+//@   modifies s.Committing.Version, s.GossipViewManager.Committing.VRV, s.StateMachineViewManager.outgoingView, s.StateMachineViewManager.jumpAhead
+
+//@ func kState.MarkNextRoundViewUpdated
+//@   property C11 C04
+//@   requires s.NextRound.Version < MAXU32
+//@   ensures version-bump: s.NextRound.Version == old(s.NextRound.Version) + 1
+//@   ensures gossip-copy: s.GossipViewManager.NextRound.VRV.Version == s.NextRound.Version &&
+//@       s.GossipViewManager.NextRound.VRV.Height == s.NextRound.Height && s.GossipViewManager.NextRound.VRV.Round == s.NextRound.Round
+//@   modifies s.NextRound.Version, s.GossipViewManager.NextRound.VRV
